@@ -1,7 +1,10 @@
 import RzmqModel.Props.C11
+#print axioms Rzmq.C11.pipe_identity_refines
+#print axioms Rzmq.C11.lookup_sound
 #print axioms Rzmq.C11.router_map_refines
 #print axioms Rzmq.C11.remove_is_local
-#print axioms Rzmq.C11.collision_counterexample
+#print axioms Rzmq.C11.collision_newest_wins
+#print axioms Rzmq.C11.collision_newest_removed
 #print axioms Rzmq.C11.dealer_to_router
 #print axioms Rzmq.C11.router_to_dealer_auto
 #print axioms Rzmq.C11.req_to_router
